@@ -280,6 +280,40 @@ func fuzzSeeds() [][]byte {
 		}
 	}
 	add(specOf([]string{"FlateDecode", "DCTDecode"}, nil, encodeWith(fl, jpegSeeds[0]), nil, 2))
+	// frame headers with unusual component layouts, followed by a scan which
+	// decodes under any layout (see tinyJPEG)
+	y22 := func(cb, cr byte) []jpegComp {
+		return []jpegComp{{1, 0x22, 0, 0}, {2, cb, 1, 0x11}, {3, cr, 1, 0x11}}
+	}
+	for _, sofType := range []byte{0xc0, 0xc2} {
+		for _, hv := range [][2]byte{{0x11, 0x11}, {0x11, 0x12}, {0x11, 0x21}, {0x11, 0x22}, {0x22, 0x11}, {0x12, 0x21}} {
+			add(specOf([]string{"DCTDecode"}, nil, tinyJPEG(sofType, 8, 16, 16, y22(hv[0], hv[1]), []int{0, 1, 2}, 64), nil, 0x40))
+		}
+	}
+	add(specOf([]string{"DCTDecode"}, nil, tinyJPEG(0xc0, 8, 64, 48, y22(0x11, 0x22), []int{0, 1, 2}, 600), nil, 0))
+	// Cb sampled more densely than Y
+	add(specOf([]string{"DCTDecode"}, nil, tinyJPEG(0xc0, 8, 16, 16, []jpegComp{{1, 0x11, 0, 0}, {2, 0x22, 1, 0x11}, {3, 0x22, 1, 0x11}}, []int{0, 1, 2}, 64), nil, 0))
+	add(specOf([]string{"DCTDecode"}, nil, tinyJPEG(0xc0, 8, 16, 16, []jpegComp{{1, 0x21, 0, 0}, {2, 0x12, 1, 0x11}, {3, 0x12, 1, 0x11}}, []int{0, 1, 2}, 64), nil, 0))
+	// four frame components, three in the scan; three in the frame, four in the scan
+	four := []jpegComp{{1, 0x22, 0, 0}, {2, 0x11, 1, 0x11}, {3, 0x11, 1, 0x11}, {4, 0x22, 0, 0}}
+	add(specOf([]string{"DCTDecode"}, nil, tinyJPEG(0xc0, 8, 16, 16, four, []int{0, 1, 2}, 64), nil, 0))
+	add(specOf([]string{"DCTDecode"}, nil, tinyJPEG(0xc0, 8, 16, 16, four, []int{0, 1, 2, 3}, 64), nil, 0))
+	add(specOf([]string{"DCTDecode"}, nil, tinyJPEG(0xc0, 8, 16, 16, y22(0x11, 0x11), []int{0, 1, 2, 2}, 64), nil, 0))
+	// precision 12 and 16, table selectors beyond the defined tables
+	add(specOf([]string{"DCTDecode"}, nil, tinyJPEG(0xc1, 12, 16, 16, y22(0x11, 0x11), []int{0, 1, 2}, 64), nil, 0))
+	add(specOf([]string{"DCTDecode"}, nil, tinyJPEG(0xc0, 16, 16, 16, y22(0x11, 0x11), []int{0, 1, 2}, 64), nil, 0))
+	add(specOf([]string{"DCTDecode"}, nil, tinyJPEG(0xc0, 8, 16, 16, []jpegComp{{1, 0x22, 3, 0x33}, {2, 0x11, 1, 0x11}, {3, 0x11, 4, 0x44}}, []int{0, 1, 2}, 64), nil, 0))
+	// the same edits on real encoder output (4:2:0 from image/jpeg)
+	for _, j := range jpegSeeds {
+		if sof, _ := jpegSegments(j); sof >= 0 && j[sof+9] == 3 {
+			for _, hv := range []int{0x12, 0x21, 0x22} {
+				add(specOf([]string{"DCTDecode"}, nil, editJPEGHeader(j, []jpegEdit{{jeSampling, 2, hv}}), nil, 0))
+			}
+			add(specOf([]string{"DCTDecode"}, nil, editJPEGHeader(j, []jpegEdit{{jeNf, 0, 4}}), nil, 0))
+			add(specOf([]string{"DCTDecode"}, nil, editJPEGHeader(j, []jpegEdit{{jeNs, 0, 1}}), nil, 0))
+			break
+		}
+	}
 	for _, s := range jb2Seeds {
 		var ps []gen.O
 		if len(s.globals) > 0 {
